@@ -321,6 +321,9 @@ def clone(node):
 def single_assignments(fnode: ast.AST) -> Dict[str, ast.AST]:
     """name -> value for locals assigned exactly once by a plain ``x = e``
     (not in a loop target, not augmented, not a parameter)."""
+    cached = getattr(fnode, "_sa_defs", None)
+    if cached is not None:
+        return cached
     counts: Dict[str, int] = {}
     vals: Dict[str, ast.AST] = {}
     params = set()
@@ -354,7 +357,12 @@ def single_assignments(fnode: ast.AST) -> Dict[str, ast.AST]:
             bump(n.target, None)
         elif isinstance(n, ast.NamedExpr):
             bump(n.target, None)
-    return {k: v for k, v in vals.items() if counts.get(k) == 1 and k not in params}
+    res = {k: v for k, v in vals.items() if counts.get(k) == 1 and k not in params}
+    try:
+        fnode._sa_defs = res  # type: ignore[attr-defined]
+    except Exception:  # pragma: no cover
+        pass
+    return res
 
 
 class _Inliner(ast.NodeTransformer):
